@@ -80,7 +80,7 @@ func (h *hostileRun) tx(call string, bz []byte, kind string) {
 		r.Dead = call + ": " + pm
 	}
 	h.stats[call+"/"+ev["layer"].(string)]++
-	if len(kind) > 6 && kind[:6] == "opcode" && code == 0 {
+	if ((len(kind) > 6 && kind[:6] == "opcode") || kind == "precompile") && code == 0 {
 		h.stats["Sweep/"+kind]++
 	}
 	h.emit(ev)
@@ -457,6 +457,37 @@ func (h *hostileRun) opcodeSweep(variant int) {
 	if s.R.Dead != "" {
 		return
 	}
+	// the precompiled contracts (0x01 .. 0x0a), called directly with inputs of their own shapes: empty, zeros, random,
+	// and for the signature recovery well-formed inputs whose r is small (about half of those are the x-coordinate of
+	// no curve point: nothing can be recovered)
+	s.Last = nil
+	s.Begin(allHdr)
+	h.emit(J{"ev": "Sync", "state": h.stateTok()})
+	for pc := 1; pc <= 10 && s.R.Dead == ""; pc++ {
+		to := make([]byte, 20)
+		to[19] = byte(pc)
+		inputs := [][]byte{nil, make([]byte, 32), make([]byte, 128), randBytes(h.rng, 64), randBytes(h.rng, 128), randBytes(h.rng, 192), randBytes(h.rng, 213)}
+		if pc == 1 {
+			for r := 1; r <= 6; r++ {
+				in := make([]byte, 128)
+				copy(in, randBytes(h.rng, 32))
+				in[63] = []byte{27, 28, 0, 1}[(r+variant)%4]
+				in[95] = byte(r)
+				in[127] = 1
+				inputs = append(inputs, in)
+			}
+		}
+		for k, in := range inputs {
+			deliver(4+k%2, to, in, "precompile")
+		}
+	}
+	h.probe()
+	if s.R.Dead != "" {
+		return
+	}
+	s.Last = nil
+	s.End()
+	h.emit(J{"ev": "Sync", "state": h.stateTok()})
 	var addrs [][]byte
 	s.Last = nil
 	s.Begin(allHdr)
